@@ -232,6 +232,8 @@ type Exec struct {
 
 	watched    map[*Value]bool
 	unsatCache map[string]bool
+	uuidCounter int
+	clockTick   int
 	syncs      map[*Value]*syncSt
 	resched    bool
 	deadlocked bool
